@@ -17,9 +17,22 @@ package sunlight
 
 // ---- C11: the note verifier's accept decision, as a function of (msg, sig) only
 //@ pure func rfcSigAccepted(name string, key Ref, msg bytes, sig bytes) bool = ckptParses(string(msg)) && ckptOf(string(msg)).Origin == name && ckptOf(string(msg)).Extension == "" && len(sig) >= 12 && sig[8] == 4 && len(sig) == 12 + be16(sig[10:12]) && ctAccepts(key, sthInput(0, ckptOf(string(msg)).N, be64(sig), ckptOf(string(msg)).Hash), sig[8], sig[9], sig[12:])
-//@ func sunlight.NewRFC6962Verifier$1 nopanic props C11
-//@   returns [C11] accepts-only-what-the-independent-verifier-accepts: ret ==> rfcSigAccepted(name, key__1, msg, sig)
+//@ func sunlight.NewRFC6962Verifier$1 nopanic props C11 C12
+//@   returns [C11,C12] accepts-only-what-the-independent-verifier-accepts: ret ==> rfcSigAccepted(name, key__1, msg, sig)
 //@   returns [C11] accepts-every-well-formed-verifying-signature: rfcSigAccepted(name, key__1, msg, sig) ==> ret
+
+// The exported Verify method is exactly one call of the decision procedure stored by NewRFC6962Verifier (no memo, no
+// shortcut): its answer depends on (msg, sig) only through that closure.
+//@ ghost var gVerifyFnCalls int
+//@ ghost var gVerifyFnRet bool
+//@ assume func sunlight.verifier.verify#elem params msg sig
+//@   modifies gVerifyFnCalls, gVerifyFnRet
+//@   ensures gVerifyFnCalls == old(gVerifyFnCalls) + 1 && gVerifyFnRet == ret
+//@ func sunlight.(*verifier).Verify props C11 C12
+//@   requires v != nil
+//@   init gVerifyFnCalls == 0
+//@   call sunlight.verifier.verify#elem requires [C11,C12] passes-the-inputs-through: c_msg == msg && c_sig == sig
+//@   ensures [C11,C12] answer-is-one-run-of-the-stored-decision-procedure: gVerifyFnCalls == 1 && ret == gVerifyFnRet
 
 //@ pure func sigTimestamp(sig note.Signature) int
 //@ func sunlight.RFC6962SignatureTimestamp nopanic props C11 C20
@@ -61,10 +74,10 @@ package sunlight
 //@ pure func u40(v int) bytes = supd(supd(supd(supd(supd(zeros(5), 0, (v / 4294967296) % 256), 1, (v / 16777216) % 256), 2, (v / 65536) % 256), 3, (v / 256) % 256), 4, v % 256)
 //@ pure func canonicalExt(x bytes) bool = len(x) == 8 && x[0] == 0 && x[1] == 0 && x[2] == 5
 
-//@ func sunlight.addUint40 props C10
+//@ func sunlight.addUint40 props C10 C12
 //@   requires b != nil && 0 <= v
 //@   modifies b.gout
-//@   ensures [C10] appends-five-big-endian-bytes: b.gout == old(b.gout) + u40(v)
+//@   ensures [C10,C12] appends-five-big-endian-bytes: b.gout == old(b.gout) + u40(v)
 
 //@ pure func marshalExt(idx int) bytes = u8(0) + u16(5) + u40(idx)
 //@ func sunlight.MarshalExtensions nopanic props C10 C12
@@ -107,12 +120,14 @@ package sunlight
 //@ func sunlight.cutEntry nopanic props C12
 //@   returns [C12] hash-covers-the-entry-that-is-cut: ret3 == nil ==> (ret1 == recordHash(mtlOf(parsedLeaf(tile))) && ret2 == leafRest(tile) && len(ret2) <= len(tile) && ret0 == tile[0:len(tile) - len(ret2)])
 
-//@ func sunlight.ParseTilePath props C10
+//@ func sunlight.ParseTilePath props C10 C19
 //@   call tlog.ParseTilePath requires [C10] prefix-exactly-replaced: (c_path == "tile/8/data/" + rest__1 && path == "tile/names/" + rest__1) || (c_path == "tile/8/" + rest__2 && path == "tile/" + rest__2)
 //@   returns [C10] names-tiles-are-level-minus-two: (ret1 == nil && hasPrefix(path, "tile/names/")) ==> ret0.L == -2
 //@   returns [C10] accepts-only-the-static-ct-spellings: ret1 == nil ==> (hasPrefix(path, "tile/names/") || hasPrefix(path, "tile/"))
 //@   returns [C10] names-tile-is-the-tlog-parse-of-the-data-path: (ret1 == nil && hasPrefix(path, "tile/names/")) ==> (tlogParses("tile/8/data/" + trimPrefix(path, "tile/names/")) && ret0.H == tlogParse("tile/8/data/" + trimPrefix(path, "tile/names/")).H && ret0.N == tlogParse("tile/8/data/" + trimPrefix(path, "tile/names/")).N && ret0.W == tlogParse("tile/8/data/" + trimPrefix(path, "tile/names/")).W)
 //@   returns [C10] other-tiles-are-the-tlog-parse-of-the-height-8-path: (ret1 == nil && !hasPrefix(path, "tile/names/")) ==> (tlogParses("tile/8/" + trimPrefix(path, "tile/")) && ret0 == tlogParse("tile/8/" + trimPrefix(path, "tile/")))
+//@   returns [C10,C19] accepts-every-names-path-tlog-accepts: (hasPrefix(path, "tile/names/") && tlogParses("tile/8/data/" + trimPrefix(path, "tile/names/"))) ==> ret1 == nil
+//@   returns [C10,C19] accepts-every-other-path-tlog-accepts: (!hasPrefix(path, "tile/names/") && hasPrefix(path, "tile/") && tlogParses("tile/8/" + trimPrefix(path, "tile/"))) ==> ret1 == nil
 //@ pure func tlogParse(path string) tlog.Tile
 //@ pure func tlogParses(path string) bool
 //@ assume func tlog.ParseTilePath params path
